@@ -511,8 +511,17 @@ def run(p, led, tier):
     PARSERS = ("ast.parse", "ast.literal_eval", "json.loads")
     module_funcs = [f for f in p.all_funcs if f.module.rel == M]
 
-    def parse_sites(f):
-        return [n for n in walk_no_nested(f.node) if isinstance(n, ast.Call) and dotted(n.func) in PARSERS and n.args]
+    def parse_sites(f, depth=0, seen=(), deep=False):
+        """calls of a parser in f, or calls of module helpers that (transitively, three levels) hand their argument to one"""
+        out_ = [n for n in walk_no_nested(f.node) if isinstance(n, ast.Call) and dotted(n.func) in PARSERS and n.args]
+        if out_ or depth >= 3 or not deep:
+            return out_
+        for c_ in walk_no_nested(f.node):
+            if isinstance(c_, ast.Call) and c_.args:
+                for g_ in res.resolve_call(f, c_):
+                    if g_ is not f and g_.key not in seen and g_.module.rel == M and g_.cls is None and parse_sites(g_, depth + 1, seen + (f.key,), True):
+                        out_.append(c_)
+        return out_
     pathway_count = 0
     for m in mito.methods.values():
         direct = parse_sites(m)
@@ -520,7 +529,7 @@ def run(p, led, tier):
         for c in walk_no_nested(m.node):
             if isinstance(c, ast.Call):
                 for g in res.resolve_call(m, c):
-                    if g is not m and g.module.rel == M and g.cls in (None, mito) and parse_sites(g) and g.name not in ("__init__",):
+                    if g is not m and g.module.rel == M and g.cls in (None, mito) and parse_sites(g, deep=True) and g.name not in ("__init__",):
                         via.append((c, g))
         if not direct and not via:
             continue
@@ -538,7 +547,7 @@ def run(p, led, tier):
             gparams = [x for x in g.params() if x != "self"]
             key = f"{m.qual} ▸ {short(c, 50)} → {g.qual}"
             probs = []
-            for n in parse_sites(g):
+            for n in parse_sites(g, deep=True):
                 w = _derivation(g, n.args[0], gparams)
                 if w:
                     probs.append(f"helper rewrites the text before parsing ({w})")
